@@ -19,7 +19,8 @@
 EXTENDS Integers, Sequences, FiniteSets, TLC
 CONSTANTS Vars, Bounds,   \* variables; set of admissible constants (integers, units of 1/K)
           K,              \* one unit of the code's "+1" relaxation, in model units
-          Eps, Tol, MaxRows
+          Eps, Tol, MaxRows,
+          Retry           \* optimize solves again without presolve when the first answer is neither optimal nor unbounded
 BoundsDef == {-8, -4, 0, 4, 8}
 BoundsSmall == {-4, 0, 4}
 Rows == [v : Vars, s : {1, -1}, c : Bounds]
@@ -42,6 +43,12 @@ MaxOf(v, s, rows) ==
 AtMost(m, bound) == m.k = "value" /\ m.x <= bound
 
 (* ---- the solver environment -------------------------------------------- *)
+\* with presolve the solver may report a feasible UNBOUNDED problem as infeasible (observed with HiGHS)
+AnswersPresolve(v, s, rows) ==
+  LET m == MaxOf(v, s, rows) IN
+  IF m.k = "unbounded" THEN {[st |-> 3, fun |-> 0], [st |-> 2, fun |-> 0]}
+  ELSE IF m.k = "infeasible" THEN {[st |-> 2, fun |-> 0]}
+  ELSE {[st |-> 0, fun |-> -(m.x + e)] : e \in (-Eps)..Eps}
 \* answer records [st, fun]: linprog MINIMISES, so fun = -(max) for objective rows; fun = 0 for feasibility
 Answers(kind, v, s, rows) ==
   IF kind = "feas"
@@ -56,9 +63,10 @@ vars == <<alg, L, R, pc, i, kept, ans, calls>>
 \* alg in {"refines", "is_empty", "reduce"}; for reduce: L = list to simplify, R = context, kept = working copy
 
 Init ==
-  /\ alg \in {"refines", "is_empty", "reduce"}
+  /\ alg \in {"refines", "is_empty", "reduce", "optimize"}
   /\ L \in Lists /\ R \in Lists
   /\ (alg = "is_empty" => R = <<>>)
+  /\ (alg = "optimize" => Len(R) = 1)          \* R[1] carries the objective s*v (its constant is immaterial)
   /\ pc = "start" /\ i = 1 /\ kept = L /\ ans = "none" /\ calls = <<>>
 
 Log(kind, row, rows, a) == calls' = Append(calls, [kind |-> kind, row |-> row, n |-> Len(rows), st |-> a.st, fun |-> a.fun])
@@ -124,7 +132,25 @@ ReduceLoop ==
             /\ IF a.st = 2 THEN pc' = "done" /\ ans' = "ValueError" ELSE UNCHANGED <<pc, ans>>
   /\ UNCHANGED <<alg, L, R>>
 
-Next == IsEmptyStep \/ RefinesStart \/ RefinesEmptyL \/ RefinesEmptyR \/ RefinesLoop \/ ReduceStart \/ ReduceLoop
+(* ---- PolyhedralTermList.optimize: maximise s*v over L ----------------------- *)
+OptStart ==
+  /\ alg = "optimize" /\ pc = "start"
+  /\ IF Len(L) = 0 THEN Finish("none") /\ UNCHANGED calls          \* no constraint at all: unbounded
+     ELSE \E a \in AnswersPresolve(R[1].v, R[1].s, L) :
+            /\ Log("max", R[1], L, a)
+            /\ IF a.st = 3 THEN Finish("none")
+               ELSE IF a.st = 0 THEN Finish("value")
+               ELSE IF Retry THEN pc' = "again" /\ UNCHANGED ans
+               ELSE Finish("ValueError")
+  /\ UNCHANGED <<alg, L, R, i, kept>>
+OptAgain ==
+  /\ alg = "optimize" /\ pc = "again"
+  /\ \E a \in Answers("max", R[1].v, R[1].s, L) :
+       /\ Log("max", R[1], L, a)
+       /\ IF a.st = 3 THEN Finish("none") ELSE IF a.st = 0 THEN Finish("value") ELSE Finish("ValueError")
+  /\ UNCHANGED <<alg, L, R, i, kept>>
+
+Next == OptStart \/ OptAgain \/ IsEmptyStep \/ RefinesStart \/ RefinesEmptyL \/ RefinesEmptyR \/ RefinesLoop \/ ReduceStart \/ ReduceLoop
 Spec == Init /\ [][Next]_vars
 
 (* ---- properties --------------------------------------------------------- *)
@@ -145,5 +171,11 @@ ReduceSelection == (Done /\ alg = "reduce" /\ ans = "returned") => Sel(kept, L)
 ReduceEquivalent == (Done /\ alg = "reduce" /\ ans = "returned" /\ Feasible(L \o R)) =>
    \A j \in DOMAIN L : AtMost(MaxOf(L[j].v, L[j].s, kept \o R), L[j].c + Eps)
 ReduceErrorOnlyIfInfeasible == (Done /\ alg = "reduce" /\ ans = "ValueError") => ~Feasible(L \o R)
-NoOtherError == Done => ans # "ValueError" \/ alg = "reduce"
+NoOtherError == Done => ans # "ValueError" \/ alg \in {"reduce", "optimize"}
+\* C12: the value within round-off, None iff unbounded over a non-empty set, ValueError iff infeasible
+OptExact == (Done /\ alg = "optimize") =>
+   LET m == MaxOf(R[1].v, R[1].s, L) IN
+   CASE m.k = "unbounded" -> ans = "none"
+     [] m.k = "infeasible" -> ans = "ValueError"
+     [] OTHER -> ans = "value" /\ LET f == -calls[Len(calls)].fun IN f - m.x <= Eps /\ m.x - f <= Eps
 =====================================================================
